@@ -44,6 +44,10 @@ struct C16 : Check {
 		FileSpec f; f.path = "F"; f.mtime = -100;
 		int nl = (int) r.range(1, 10);
 		for (int i = 0; i < nl; i++) f.data += mbtext(r, (int) r.range(0, 24)) + "\n";
+		// now and then a line longer than the fixed-size copies the editor makes of a line (1 KiB), multi-byte
+		// characters across that boundary
+		bool longline = vi && r.chance(1, 25);
+		if (longline) { std::string l = std::string((size_t) r.range(1000, 1030), 'a'); for (int i = 0; i < 30; i++) l += mbchar(r); f.data = l + "\n" + f.data; }
 		p.files.push_back(f);
 		p.argv.push_back("F");
 		bool hist = vi && r.chance(1, 3);
@@ -113,6 +117,25 @@ struct C16 : Check {
 			}
 			s.meta.set("k", "mod");
 			p.steps.push_back(s);
+		}
+		if (longline) {
+			static const char *use[] = {"1G\";p", "1G\";P", "1Gjo\x12;\x1b", "1G\";pk\";P"};
+			Step s; s.meta = Json::obj(); s.meta.set("k", "mod"); s.keys = use[r.below(4)];
+			p.steps.insert(p.steps.begin() + (long) r.below(p.steps.size() + 1), s);
+		}
+		// a repeatable command longer than the 4 KiB recording buffer, whose 4096th recorded byte falls inside
+		// a character, then '.': whatever is replayed must still be whole characters
+		if (vi && r.chance(1, 100)) {
+			Step a; a.meta = Json::obj(); a.meta.set("k", "mod");
+			std::string ch = mbchar(r);
+			int n = (int) (4096 / ch.size()) + (int) r.range(-3, 40);
+			a.keys = std::string(r.chance(1, 2) ? "i" : "A") + std::string(r.chance(1, 2) ? "" : "x");
+			for (int i = 0; i < n; i++) a.keys += ch;
+			a.keys += "\x1b";
+			Step d; d.meta = Json::obj(); d.meta.set("k", "mod"); d.keys = ".\x1b\x1b";
+			size_t at = (size_t) r.below(p.steps.size() + 1);
+			p.steps.insert(p.steps.begin() + (long) at, d);
+			p.steps.insert(p.steps.begin() + (long) at, a);
 		}
 		// a window resize at an arbitrary system call of a step, also between the bytes of one character
 		// (the poll() waiting for the next byte is interrupted): no command may cut or lose part of a character
